@@ -389,6 +389,7 @@ func (fc *fnCtx) inline(st *State, fr *frame, site string, callee *ssa.Function,
 		}
 	}
 	nf := fc.newFrame(callee, fr)
+	nf.site = site
 	savedNames := st.names
 	st.outer = append(st.outer, savedNames)
 	st.names = map[string]Val{}
